@@ -256,8 +256,8 @@ func genNul(c *Config, k int) input {
 		}
 		return bs
 	}
-	positions := []int{-1, 0, 1, 7998, 7999, 8000, 8001, 8500}
-	sizes := []int{7999, 8000, 8001, 8002, 9000}
+	positions := []int{-1, 0, 1, 7998, 7999, 8000, 8001, 8500, 15999, 16000, 19999}
+	sizes := []int{7999, 8000, 8001, 8002, 9000, 16000, 20000}
 	pa := positions[k%len(positions)]
 	sz := sizes[(k/len(positions))%len(sizes)]
 	a := mk(pa, sz)
@@ -387,7 +387,7 @@ func generate(c *Config) {
 	for i := c.Count(1500, 40000); i > 0; i-- {
 		emit(c, genWsLast(c))
 	}
-	for i, n := 0, c.Count(40, 400); i < n; i++ {
+	for i, n := 0, c.Count(77, 770); i < n; i++ {
 		emit(c, genNul(c, i))
 	}
 	for i := c.Count(6, 150); i > 0; i-- {
